@@ -1,6 +1,7 @@
 package rules
 
 import (
+	"go/ast"
 	"go/parser"
 	"go/token"
 	"strings"
@@ -172,6 +173,29 @@ func c19CopiedWriters(c *Ctx) {
 				n++
 				top := topFn(fn).Name()
 				reviewed := top == "GetPrevDecl" || top == "MarkStructCopied"
+				if !reviewed && top != "MarkEmptyStructCopied" && !ast.IsExported(top) {
+					// an unexported walker shared by the reviewed markers (`markTypeDecls(name, accept)`): every static caller is one of them
+					callers, all := 0, true
+					for _, f2 := range c.W.FuncsIn(func(p string) bool { return p == pkgRewrite || p == pkgResolvergen }) {
+						for _, cc := range an.CallsIn(f2, func(_ ssa.CallInstruction, ci an.CalleeInfo) bool { return ci.Static == topFn(fn) }) {
+							_ = cc
+							callers++
+							switch topFn(f2).Name() {
+							case "GetPrevDecl", "MarkStructCopied":
+							case "MarkEmptyStructCopied":
+								if !emptyStructSideCondition(topFn(f2)) {
+									all = false
+								}
+							default:
+								all = false
+							}
+						}
+					}
+					reviewed = callers > 0 && all
+				}
+				if top == "MarkEmptyStructCopied" && emptyStructSideCondition(topFn(fn)) {
+					reviewed = true
+				}
 				if top == "MarkEmptyStructCopied" {
 					// reviewed with a side condition checked here: it marks only a struct type without fields (what the template
 					// re-emits verbatim) — the mark is taken on the NumFields() == 0 edge
@@ -745,4 +769,26 @@ func prevDeclFinder(fn *ssa.Function, params map[string]ssa.Value) (*ssa.Functio
 		}
 	}
 	return fn, params
+}
+
+// emptyStructSideCondition: MarkEmptyStructCopied (or a predicate literal it hands on) compares FieldList.NumFields() with 0.
+func emptyStructSideCondition(fn *ssa.Function) bool {
+	for _, f := range an.WithClosures(fn) {
+		for _, b := range f.Blocks {
+			for _, in := range b.Instrs {
+				bo, ok := in.(*ssa.BinOp)
+				if !ok || bo.Op != token.EQL && bo.Op != token.NEQ {
+					continue
+				}
+				call, ok := bo.X.(*ssa.Call)
+				if !ok || !strings.HasSuffix(an.CalleeOf(call).FullName(), "FieldList).NumFields") {
+					continue
+				}
+				if k, isC := an.ConstInt(bo.Y); isC && k == 0 {
+					return true
+				}
+			}
+		}
+	}
+	return false
 }
